@@ -464,7 +464,7 @@ func directiveTokens(ts []tok) (n int) {
 var (
 	directives = []string{"*", "_", "~", "`"}
 	spaces     = []string{" ", " ", " ", "\t", "\u00a0", "\u2003", "\u3000", "\u0085", "\u1680", "\u2028", "\r", "\v"}
-	words      = []string{"a", "b", "bc", "word", "x y", "é", "日", "😀", "\\", "0", "-", "a b c", "\ufeff", "\u200b"}
+	words      = []string{"a", "b", "bc", "word", "x y", "é", "日", "😀", "\\", "0", "-", "a b c", "\ufeff", "\u200b", "*_~`x`~_*", "*a _b ~c `d` c~ b_ a*", "_*~_*~x~*_~*_"}
 	broken     = []string{"\xff", "\xc2", "\xe2\x80", "\x80", "\xe2", "\xf0\x9f\x98", "\xc0\x80"}
 	infos      = []string{"", "", "go", " ", "`", "*x*", "日本", "a b", "\u00a0"}
 )
@@ -513,7 +513,7 @@ func genInline(t *rapid.T, out []byte, depth int) []byte {
 			out = append(out, pick(t, words, "w")...)
 		case k < 5:
 			out = append(out, pick(t, spaces, "sp")...)
-		case k < 9 && depth < 3: // a span, possibly with children, possibly padded
+		case k < 9 && depth < 6: // a span, possibly with children, possibly padded
 			d := pick(t, directives, "dir")
 			out = append(out, d...)
 			if rapid.IntRange(0, 7).Draw(t, "padL") == 0 {
